@@ -12,9 +12,11 @@ var wellTyped = "only packages with zero parse errors and zero type errors under
 // configs: tiers are bounded by case counts; the wall-clock limits only map to "inconclusive".
 var configs = map[string]propCfg{
 	"C01": {
-		Quick:    tierCfg{Shards: 8, Checks: 400, Limit: qLimit},
-		Thorough: tierCfg{Shards: 16, Checks: 9000, Limit: tLimit},
-		Floor:    200,
+		FuzzTargets: []string{"FuzzSource", "FuzzKernelBody", "FuzzSplice"},
+		FuzzTime:    "3m",
+		Quick:       tierCfg{Shards: 8, Checks: 400, Limit: qLimit},
+		Thorough:    tierCfg{Shards: 16, Checks: 9000, Limit: tLimit},
+		Floor:       200,
 		Rule: "programs = maintainer-written example packages (checkers/testdata) or files of checker kernels with typed holes, followed by 0-3 typed mutations " +
 			"(builtin/std-package namesakes, parentheses, bare returns, multi-value forwarding, odd declarations, literal respelling, generic builtin shadows, namesake imports, blanks), each re-validated by go/types; " +
 			"all 107 checkers run long-lived with defaults plus fresh parameterised checkers under drawn parameter values. " +
@@ -22,18 +24,22 @@ var configs = map[string]propCfg{
 		Assumptions: []string{wellTyped, "a hang is only reported after the case again fails to finish alone within 150 s in a fresh process"},
 	},
 	"C07": {
-		Quick:    tierCfg{Shards: 8, Checks: 400, Limit: qLimit},
-		Thorough: tierCfg{Shards: 16, Checks: 9000, Limit: tLimit},
-		Floor:    100,
+		FuzzTargets: []string{"FuzzSource", "FuzzKernelBody", "FuzzSplice"},
+		FuzzTime:    "3m",
+		Quick:       tierCfg{Shards: 8, Checks: 400, Limit: qLimit},
+		Thorough:    tierCfg{Shards: 16, Checks: 9000, Limit: tLimit},
+		Floor:       100,
 		Rule: "same program generator as C01; every diagnostic of every checker is judged: valid position inside the analysed file, at a token or comment start " +
 			"(independent go/scanner pass), sane fix range, non-empty message without formatting artefacts (unless the artefact text occurs in the analysed source). " +
 			"Non-trivial = a diagnostic; distinct by checker x normalised message x token class at the position.",
 		Assumptions: []string{wellTyped},
 	},
 	"C02": {
-		Quick:    tierCfg{Shards: 8, Checks: 250, Limit: qLimit},
-		Thorough: tierCfg{Shards: 16, Checks: 4000, Limit: tLimit},
-		Floor:    100,
+		FuzzTargets: []string{"FuzzKernelBody"},
+		FuzzTime:    "3m",
+		Quick:       tierCfg{Shards: 8, Checks: 250, Limit: qLimit},
+		Thorough:    tierCfg{Shards: 16, Checks: 4000, Limit: tLimit},
+		Floor:       100,
 		Rule: "programs as in C01 plus import-heavy files (2-6 packages each imported 1-3 times under different names in a drawn order, several imports shadowed at once). " +
 			"Each program is analysed 4x by the long-lived set, once after a fresh re-parse/type-check, once by a fresh hand-written set and (1 case in 40) by a completely fresh 107-checker set; " +
 			"the ordered diagnostics (line, column, offset, text, fix range, fix bytes) of every checker must be identical; GetCheckersInfo order must be stable. " +
@@ -50,18 +56,22 @@ var configs = map[string]propCfg{
 		Assumptions: []string{wellTyped, "the fresh baseline uses the same syntax-tree objects (tree mutation is C05's subject)"},
 	},
 	"C05": {
-		Quick:    tierCfg{Shards: 8, Checks: 120, Limit: qLimit},
-		Thorough: tierCfg{Shards: 16, Checks: 2500, Limit: tLimit},
-		Floor:    100,
+		FuzzTargets: []string{"FuzzSource", "FuzzKernelBody"},
+		FuzzTime:    "3m",
+		Quick:       tierCfg{Shards: 8, Checks: 120, Limit: qLimit},
+		Thorough:    tierCfg{Shards: 16, Checks: 2500, Limit: tLimit},
+		Floor:       100,
 		Rule: "programs as in C01; the 107 checkers run in a drawn permutation; a reflective structural fingerprint of the *ast.File (every field, token, position, literal, comment, object link, node identity), " +
 			"a digest of types.Info, the shared Context fields and the registry metadata/parameters is compared before/after every single Check; then results are compared with registry order on a pristine re-parse. " +
 			"Non-trivial = (checker, program) pair in which the checker emitted a diagnostic (its suggestion-building path ran).",
 		Assumptions: []string{wellTyped, "fingerprint self-test (two dumps of an untouched tree are equal) runs in every case"},
 	},
 	"C20": {
-		Quick:    tierCfg{Shards: 8, Checks: 400, Limit: qLimit},
-		Thorough: tierCfg{Shards: 16, Checks: 8000, Limit: tLimit},
-		Floor:    100,
+		FuzzTargets: []string{"FuzzSource", "FuzzKernelBody"},
+		FuzzTime:    "3m",
+		Quick:       tierCfg{Shards: 8, Checks: 400, Limit: qLimit},
+		Thorough:    tierCfg{Shards: 16, Checks: 8000, Limit: tLimit},
+		Floor:       100,
 		Rule: "programs as in C01 with 1-3 namesake mutations: an imported std package replaced by a generated user package with the same API (functions are user-defined, types alias the real ones), " +
 			"a package-level generic function named like a builtin, local variables/closures/types named like builtins or std packages, renames of user objects to builtin/std names. " +
 			"Oracle: for every diagnostic of an API-specific checker (subject table: hand-written checkers by hand, rule groups from the packages/builtins spelled in their Match patterns), the references spelled like the subject " +
@@ -81,9 +91,11 @@ var configs = map[string]propCfg{
 		Assumptions: []string{wellTyped, "reordering is restricted to receiver-less functions other than init/main (type-neutral in Go)", "exempt: dupImport, typeDefFirst, codegenComment, commentedOutImport"},
 	},
 	"C11": {
-		Quick:    tierCfg{Shards: 8, Checks: 250, Limit: qLimit},
-		Thorough: tierCfg{Shards: 16, Checks: 12000, Limit: tLimit},
-		Floor:    40,
+		FuzzTargets: []string{"FuzzRegexp"},
+		FuzzTime:    "6m",
+		Quick:       tierCfg{Shards: 8, Checks: 250, Limit: qLimit},
+		Thorough:    tierCfg{Shards: 16, Checks: 12000, Limit: tLimit},
+		Floor:       40,
 		Rule: "patterns from a grammar over Go regexp syntax (<= 60 bytes, accepted by regexp.Compile) biased to the simplifier's rewrite sites (single-element classes incl. - ] ^ { , single-char alternations, {0,1} {1,} {0,} {0} {1} on chars/groups/captures, xx*, runs of equal atoms, removable escapes, posix/perl classes, literal alternations sharing a prefix/suffix, flag groups, named captures), 1-10 per case, rendered as \"...\" or back-quoted constants inside regexp.MustCompile/Compile. " +
 			"Oracle for every proposed rewrite A -> B: B compiles; NumSubexp and SubexpNames equal; FindStringSubmatchIndex equal on ALL strings of length <= 4 over a 6-symbol alphabet built from A's own literals plus foreigners, plus random subjects up to 12 runes. " +
 			"Non-trivial = a rewrite was proposed; distinct by pattern with letters renamed in order of appearance.",
@@ -178,9 +190,11 @@ var configs = map[string]propCfg{
 		Assumptions: []string{wellTyped, "the Go compiler's unsafe.Sizeof is the reference for sizes", "measure of an if-else chain = number of else keywords (the documented example, two of them, triggers at the default 2)", "length of a comment = runes of go/ast CommentGroup.Text() (markers stripped, trailing newline included)"},
 	},
 	"C09": {
-		Quick:    tierCfg{Shards: 8, Checks: 150, Limit: qLimit},
-		Thorough: tierCfg{Shards: 16, Checks: 3000, Limit: tLimit},
-		Floor:    60,
+		FuzzTargets: []string{"FuzzKernelBody"},
+		FuzzTime:    "4m",
+		Quick:       tierCfg{Shards: 8, Checks: 150, Limit: qLimit},
+		Thorough:    tierCfg{Shards: 16, Checks: 3000, Limit: tLimit},
+		Floor:       60,
 		Rule: "programs as in C01 (kernels of every checker that carries a fix or quotes replacement code, with marker statements mark(N) drawn between the statements of multi-statement patterns; mutations: parentheses, literal respelling, forwarding, bare returns, odd declarations, std-named locals). " +
 			"For every diagnostic with a machine fix, and every diagnostic whose message matches a per-checker recipe (message = prefix + A + infix + B + suffix with A the printed/source form of a node at the position), B is substituted for A: " +
 			"B parses in A's category; the file parses; every marker present before is present after; the package type-checks (unused imports tolerated); the replaced expression keeps its type (up to default types); re-analysis of a fixed file does not repeat the diagnostic (non-overlapping fixes only). " +
